@@ -56,6 +56,10 @@ func exerciseToken(c C10Case) (rep c10Reply) {
 		}
 	}()
 	apub, _, _ := attackerKey(c.N)
+	// the other ways of reading the same bytes: an Unmarshaler with a table of its own, and one
+	// that was never given a table (an error, not a crash)
+	_, _ = (&biscuit.Unmarshaler{Symbols: &datalog.SymbolTable{"own_base"}}).Unmarshal(append([]byte{}, c.Token...))
+	_, _ = (&biscuit.Unmarshaler{}).Unmarshal(append([]byte{}, c.Token...))
 	tok, err := biscuit.Unmarshal(c.Token)
 	if err != nil || tok == nil {
 		rep.OK = true
